@@ -348,6 +348,12 @@ def _bezier_two(xy, c00, c01, c02, c10, c11, c12, c20, c21, c22):
     )
 
 
+# With curve_fit's default gtol=0, MINPACK reports a fit that is exact to machine precision
+# (residual orthogonal to the Jacobian) as a failure and curve_fit raises RuntimeError.
+# gtol = machine epsilon makes that case terminate as converged.
+_CURVE_FIT_GTOL = float(np.finfo(np.float64).eps)
+
+
 # TODO -- testing this
 def fit_origin(
     data: np.ndarray | tuple[np.ndarray, np.ndarray],
@@ -389,8 +395,8 @@ def fit_origin(
         mask1D = mask.reshape(1, np.prod(shape))
         rc_masked = np.vstack((r1D * mask1D, c1D * mask1D))
 
-        popt_r, _ = curve_fit(f, rc_masked, qr0_meas_masked)
-        popt_c, _ = curve_fit(f, rc_masked, qc0_meas_masked)
+        popt_r, _ = curve_fit(f, rc_masked, qr0_meas_masked, gtol=_CURVE_FIT_GTOL)
+        popt_c, _ = curve_fit(f, rc_masked, qc0_meas_masked, gtol=_CURVE_FIT_GTOL)
 
         if robust:
             popt_r = perform_robust_fitting(
@@ -403,8 +409,8 @@ def fit_origin(
         qr0_meas_1D = qr0_meas.reshape(np.prod(shape))
         qc0_meas_1D = qc0_meas.reshape(np.prod(shape))
 
-        popt_r, _ = curve_fit(f, rc, qr0_meas_1D)
-        popt_c, _ = curve_fit(f, rc, qc0_meas_1D)
+        popt_r, _ = curve_fit(f, rc, qr0_meas_1D, gtol=_CURVE_FIT_GTOL)
+        popt_c, _ = curve_fit(f, rc, qc0_meas_1D, gtol=_CURVE_FIT_GTOL)
 
         if robust:
             popt_r = perform_robust_fitting(
@@ -431,7 +437,7 @@ def perform_robust_fitting(func, rc, data, initial_guess, robust_steps, robust_t
         mask = np.abs(fit_vals - data) <= robust_thresh * rmse
         rc = np.vstack((rc[0][mask], rc[1][mask]))
         data = data[mask]
-        popt, _ = curve_fit(func, rc, data, p0=popt)
+        popt, _ = curve_fit(func, rc, data, p0=popt, gtol=_CURVE_FIT_GTOL)
     return popt
 
 
